@@ -93,6 +93,43 @@ def run(tier):
             gmp, wnok, len(wbad), nblocked, landed))
         if nblocked < 3 or not landed:
             o.problem("gate-driven interleavings were not reached (blocked assertions %d, install between reads %s)" % (nblocked, landed))
+    # schedule replay (spec -> impl): complete schedules of the concurrent model, simulated by TLC from GenSimpleDBConc.tla, are executed
+    # on the real database thread by thread through the gates; every Get must reply what the model computed for that interleaving
+    sbehs, _ = judge.gen_behaviours("GenSimpleDBConc.tla", "Gen_SimpleDB_conc.cfg", simulate="num=%d" % (3000 if thorough else 500), depth=60,
+                                    seed=SEED, outcome=o, what="TLC-simulated schedules of the concurrent model")
+    suniq = list({json.dumps(b["h"]): b for b in sbehs}.values())
+    rng.shuffle(suniq)
+    suniq.sort(key=lambda b: not b["ov"])           # schedules in which threads really overlap first
+    suniq = suniq[: (1200 if thorough else 160)]
+    scases = [dbgen.beh_to_sched(b["h"]) for b in suniq]
+    nsb = 8
+    sjobs = [("sched-%d" % i, scases[i::nsb], {"GOMAXPROCS": str([1, 2, 4, 16][i % 4])}) for i in range(nsb) if scases[i::nsb]]
+
+    def dosched(j):
+        name, cases, env = j
+        trace = dbrun.run_db_batch(binary, "C05-" + name, cases, seed=SEED, env=env, timeout=900)
+        nok, bad, r = dbrun.judge_db(trace, o, "schedule replay " + name)
+        return trace, nok, bad, r
+
+    nsget = nsteps = ncompleted = 0
+    for (name, cases, env), (trace, nok, bad, r) in zip(sjobs, common.parallel(dosched, sjobs, nthreads=4)):
+        evs = common.read_ndjson(trace)
+        nsget += sum(1 for e in evs if e["t"] == "schedget")
+        nsteps += sum(e["steps"] for e in evs if e["t"] == "scheddone")
+        ncompleted += sum(e["completed"] for e in evs if e["t"] == "scheddone")
+        o.traces += len(cases)
+        for b in bad[:5]:
+            case = b.get("case", -1)
+            o.report(signature(b), "schedule replay %s (GOMAXPROCS=%s) case %s line %s clause %s\n  event: %s\n  context:\n    %s" % (
+                name, env["GOMAXPROCS"], case, b["line"], b["clause"], b.get("ev", "")[:400], "\n    ".join(dbrun.context(trace, b["line"])[-14:])),
+                {"steps": cases[case] if 0 <= case < len(cases) else None, "gates": False, "clause": b["clause"], "env": env})
+        log("[C05] %-8s GOMAXPROCS=%-2s %3d schedules: %s conforming steps, %d rejected" % (name, env["GOMAXPROCS"], len(cases), nok, len(bad)))
+    o.extra["replayed_schedules"] = len(scases)
+    o.extra["replayed_schedules_with_overlap"] = sum(1 for b in suniq if b["ov"])
+    o.extra["schedule_steps_completed"] = "%d/%d" % (ncompleted, nsteps)
+    o.extra["schedule_get_replies_equal_to_model"] = nsget
+    if scases and (nsget == 0 or ncompleted < nsteps):
+        o.problem("schedule replay incomplete: %d Get replies compared, %d of %d steps completed" % (nsget, ncompleted, nsteps))
     kinds = {}
     ncalls = 0
     for (name, case, env), (trace, nok, bad, r, acc, hw, total, index) in zip(batches, res):
